@@ -63,10 +63,10 @@ Proof. vm_compute. reflexivity. Qed.
 
 (* ---------- the manager: two datasets in the collection (one with coordinates), one outside ---------- *)
 Definition p1 : cid := (1, 0).  Definition w1 : cid := (1, 1).
-Definition D0 := mkds 0 true true 2 [(0, 0); a] [(0, 0)] [] [] [] [].
+Definition D0 := mkds 0 true true 2 [(0, 0); a] [(0, 0)] [] [] [] [] [].
 Definition D1 := mkds 1 true true 2 [p1; w1; b] [p1; w1] [w1]
-                      [mklink 1002 [p1] w1 (mkfn 2 [-1]); mklink 1003 [w1] p1 (mkfn 2 [-1])] [] [].
-Definition D2 := mkds 2 false false 2 [(2, 0); c] [(2, 0)] [] [] [] [].
+                      [mklink 1002 [p1] w1 (mkfn 2 [-1]); mklink 1003 [w1] p1 (mkfn 2 [-1])] [] [] [].
+Definition D2 := mkds 2 false false 2 [(2, 0); c] [(2, 0)] [] [] [] [] [].
 Definition s0 := recompute (mkstate [D0; D1; D2] [] 0%nat false).
 
 Definition same_ab := mkent 0 true None [(mklink 0 [a] b (mkfn 0 [1]), Some (mkfn 0 [1]))].
@@ -79,7 +79,7 @@ Proof.
   - intros x [H|[H|[]]]; subst; reflexivity.
   - intros x [H|[]]; subst; simpl; auto.
   - intros l [].
-  - intros l [].
+  - split; intros l [].
   - auto.
 Qed.
 
@@ -90,7 +90,7 @@ Proof.
   - intros x [H|[H|[]]]; subst; simpl; auto.
   - intros l [H|[H|[]]]; subst l; simpl;
       (split; [discriminate | split; [intros x [Hx|[]]; subst; simpl; auto | auto]]).
-  - intros l [].
+  - split; intros l [].
   - auto.
 Qed.
 
@@ -100,7 +100,7 @@ Proof.
   - intros x [H|[H|[]]]; subst; reflexivity.
   - intros x [H|[]]; subst; simpl; auto.
   - intros l [].
-  - intros l [].
+  - split; intros l [].
   - intros; discriminate.
 Qed.
 
@@ -201,8 +201,8 @@ Qed.
 
 (* ---------- derived components: removing an input removes the derived attribute and every link touching it ---------- *)
 Definition x1 : cid := (1, 2).  Definition y1 : cid := (1, 6).  Definition z2 : cid := (2, 2).
-Definition E1 := mkds 1 true true 2 [(1, 0); x1] [(1, 0)] [] [] [mklink 2001 [x1] y1 (mkfn 0 [2])] [].   (* y = 2x *)
-Definition E2 := mkds 2 true true 2 [(2, 0); z2] [(2, 0)] [] [] [] [].
+Definition E1 := mkds 1 true true 2 [(1, 0); x1] [(1, 0)] [] [] [mklink 2001 [x1] y1 (mkfn 0 [2])] [] [].   (* y = 2x *)
+Definition E2 := mkds 2 true true 2 [(2, 0); z2] [(2, 0)] [] [] [] [] [].
 Definition t0 := recompute (mkstate [E1; E2] [] 0%nat false).
 Definition z_to_y := mkent 0 false None [(mklink 0 [z2] y1 (mkfn 1 [-1]), Some (mkfn 1 [-1]))].     (* touches y, not x *)
 Definition casc : list op := [ AddLink z_to_y; RemoveComponent 1 x1 ].
@@ -213,7 +213,7 @@ Proof.
   - intros x [H|[H|[H|[]]]]; subst; reflexivity.
   - intros x [H|[]]; subst; simpl; auto.
   - intros l [].
-  - intros l [H|[]]; subst l; simpl. split; [discriminate|]. intros x [Hx|[]]; subst; simpl; auto.
+  - split; [|intros l []]. intros l [H|[]]; subst l; simpl. split; [discriminate|]. intros x [Hx|[]]; subst; simpl; auto.
   - auto.
 Qed.
 
@@ -223,7 +223,7 @@ Proof.
   - intros x [H|[H|[]]]; subst; reflexivity.
   - intros x [H|[]]; subst; simpl; auto.
   - intros l [].
-  - intros l [].
+  - split; intros l [].
   - auto.
 Qed.
 
@@ -336,3 +336,40 @@ Example gen_update_runs :
   | _ => False
   end.
 Proof. vm_compute. repeat split; reflexivity. Qed.
+
+(* ---------- round 5: a derived attribute whose link declares its inverse; another dataset linked to the DERIVED attribute only
+   reaches the input attribute through the inverse of the dataset-internal link ---------- *)
+Definition F1 := mkds 1 true true 2 [(1, 0); x1] [(1, 0)] [] []
+                      [mklink 2001 [x1] y1 (mkfn 1 [-1])] [mklink 2001 [y1] x1 (mkfn 1 [-1])] [].     (* y = 1 - x, x = 1 - y *)
+Definition u0 := recompute (mkstate [F1; E2] [] 0%nat false).
+
+Lemma F1_wf : ds_wf F1.
+Proof.
+  unfold ds_wf, F1, comps, der_cids. simpl. split; [|split; [|split; [|split]]].
+  - intros x [H|[H|[H|[]]]]; subst; reflexivity.
+  - intros x [H|[]]; subst; simpl; auto.
+  - intros l [].
+  - split.
+    + intros l [H|[]]; subst l; simpl. split; [discriminate|]. intros x [Hx|[]]; subst; simpl; auto.
+    + intros l [H|[]]; subst l. exists (mklink 2001 [x1] y1 (mkfn 1 [-1])). simpl. auto.
+  - auto.
+Qed.
+
+Example inverse_of_internal_link_reaches_input :
+  let s := run u0 [AddLink z_to_y] in
+  match find_ds 2 (s_data s) with
+  | Some d => read_ds d (fun c => if cid_eqb c z2 then 5 else 0) y1 = Some (-4) /\
+              read_ds d (fun c => if cid_eqb c z2 then 5 else 0) x1 = Some 5 /\
+              select_ds d (fun c => if cid_eqb c z2 then 5 else 0) x1 4 = Some true
+  | None => False
+  end.
+Proof. vm_compute. auto. Qed.
+
+Example without_declared_inverse_input_unreachable :
+  let s := run t0 [AddLink z_to_y] in
+  match find_ds 2 (s_data s) with
+  | Some d => read_ds d (fun c => if cid_eqb c z2 then 5 else 0) x1 = None
+  | None => False
+  end.
+Proof. vm_compute. auto. Qed.
+
